@@ -108,6 +108,10 @@ fn main() {
             let evs = ex.step(&step);
             g.observe(&evs);
             let after = ex.store.log_len();
+            // a transaction that creates a persistent savepoint commits two-phase (fix recorded in known_findings.txt)
+            if e == "spp" && evs.iter().any(|x| x["e"] == "spp" && x["r"].get("ok").is_some()) {
+                *tp = true;
+            }
             emit_ops(ex, lines, after, consumed);
             if e == "commit" {
                 let r = evs.iter().find(|x| x["e"] == "cend").map(|x| x["r"].clone()).unwrap_or(json!(0));
